@@ -184,7 +184,7 @@ func (r *Run) execute() int {
 	for _, m := range mods {
 		e := newEngine(filepath.Join(r.repo, m))
 		pats := r.prop.Patterns
-		if len(pats) == 0 {
+		if len(pats) == 0 || m != "." {
 			pats = []string{"./..."}
 		}
 		if err := e.load(pats...); err != nil {
@@ -202,7 +202,6 @@ func (r *Run) execute() int {
 		}
 		r.engines = append(r.engines, e)
 	}
-	e := r.engines[0]
 	// carriers
 	done := map[string]bool{}
 	var todo []struct {
@@ -210,6 +209,7 @@ func (r *Run) execute() int {
 		c     *Contract
 		sweep bool
 		name  string
+		eng   *Engine
 	}
 	for _, car := range r.prop.Carriers {
 		i := strings.LastIndex(car, ".(")
@@ -232,8 +232,7 @@ func (r *Run) execute() int {
 			r.bindingFailure(car, "carrier function not found in the current tree")
 			continue
 		}
-		_ = eng
-		c := e.contractFor(fn)
+		c := eng.contractFor(fn)
 		if c == nil {
 			r.bindingFailure(car, "carrier function has no contract")
 			continue
@@ -244,7 +243,8 @@ func (r *Run) execute() int {
 			c     *Contract
 			sweep bool
 			name  string
-		}{fn, c, false, car})
+			eng   *Engine
+		}{fn, c, false, car, eng})
 	}
 	for _, sp := range r.prop.Sweep {
 		for _, en := range r.engines {
@@ -260,7 +260,8 @@ func (r *Run) execute() int {
 					c     *Contract
 					sweep bool
 					name  string
-				}{fn, c, true, name})
+					eng   *Engine
+				}{fn, c, true, name, en})
 			}
 		}
 	}
@@ -268,7 +269,7 @@ func (r *Run) execute() int {
 		if r.only != "" && !strings.HasSuffix(t.name, r.only) {
 			continue
 		}
-		u, err := e.verifyFunc(t.fn, t.c, t.sweep)
+		u, err := t.eng.verifyFunc(t.fn, t.c, t.sweep)
 		rep := funcReport{Key: t.name, Contract: t.c != nil, Paths: u.paths, Notes: u.notes}
 		if err != nil {
 			rep.OutOfSubset = err.Error()
@@ -296,6 +297,9 @@ func (r *Run) execute() int {
 		rep.Obligations = len(keep)
 		r.obls = append(r.obls, keep...)
 		r.reports = append(r.reports, rep)
+	}
+	if len(r.prop.Sweep) > 0 && len(r.prop.Kinds) == 0 {
+		r.recursionCheck(todoFuncs(todo))
 	}
 	discharge(r.obls, solveOpts{outDir: outDir, timeoutS: r.timeout, all: r.tier == "thorough", jobs: 16, seed: r.seed})
 	// results
@@ -398,4 +402,68 @@ func (r *Run) bindingFailure(name, msg string) {
 	o := &Obligation{Name: name + "#binding", Kind: "binding", Func: name, Clause: msg, Result: "binding", Goal: tFalse, Output: msg}
 	o.Solver = "gocv"
 	r.bindErrs = append(r.bindErrs, o)
+}
+
+func todoFuncs(todo []struct {
+	fn    *ssa.Function
+	c     *Contract
+	sweep bool
+	name  string
+	eng   *Engine
+}) []*ssa.Function {
+	var out []*ssa.Function
+	for _, t := range todo {
+		out = append(out, t.fn)
+	}
+	return out
+}
+
+// recursionCheck: termination of the swept functions relies on loops only if the static call graph
+// restricted to them has no cycle.
+func (r *Run) recursionCheck(fns []*ssa.Function) {
+	in := map[*ssa.Function]bool{}
+	for _, f := range fns {
+		in[f] = true
+	}
+	state := map[*ssa.Function]int{}
+	var cyc []string
+	var visit func(f *ssa.Function)
+	visit = func(f *ssa.Function) {
+		state[f] = 1
+		for _, b := range f.Blocks {
+			for _, ins := range b.Instrs {
+				ci, ok := ins.(ssa.CallInstruction)
+				if !ok {
+					continue
+				}
+				callee := ci.Common().StaticCallee()
+				if callee == nil || !in[callee] {
+					continue
+				}
+				switch state[callee] {
+				case 0:
+					visit(callee)
+				case 1:
+					cyc = append(cyc, f.String()+" -> "+callee.String())
+				}
+			}
+		}
+		state[f] = 2
+	}
+	for _, f := range fns {
+		if state[f] == 0 {
+			visit(f)
+		}
+	}
+	o := &Obligation{Name: "sweep#variant:no recursion", Kind: "variant", Func: "sweep", Goal: tTrue, Decided: true,
+		Clause: fmt.Sprintf("the static call graph of the %d swept functions is acyclic (termination then only depends on loops)", len(fns)), Tags: []string{"C08"}}
+	if len(cyc) == 0 {
+		o.Result, o.Solver = "unsat", "gocv-callgraph"
+	} else {
+		o.Result, o.Solver, o.Output = "sat", "gocv-callgraph", strings.Join(cyc, "\n")
+	}
+	if len(r.units) > 0 {
+		o.unit = r.units[0]
+	}
+	r.obls = append(r.obls, o)
 }
